@@ -18,7 +18,7 @@ Proof. intros H. unfold enc_init. cbn [e_max]. destruct (max =? 0) eqn:E; [apply
 
 Section GlueGen.
   Variable P : Type.
-  Variable encode : enc -> P -> res (list packet * enc) + unit.
+  Variable encode : enc -> P -> res (list packet * enc) + enc.
 
   (* ---- the offset: format independent ---- *)
   Theorem glue_offset max avail g pts inp decerr deliv g' out :
